@@ -183,7 +183,7 @@ def group_traces(executed, tag=""):
     return traces, owners
 
 
-def validate(traces, report, name, max_steps=6000, max_ev=300, timeout=900, workers=None):
+def validate(traces, report, name, max_steps=6000, max_ev=300, timeout=3600, workers=None):
     """Adjudicates recordings with TLC (BFTrace).  Returns {trace id: verdict record}."""
     if not traces:
         return {}
